@@ -53,6 +53,9 @@ type Engine struct {
 	InlineExt map[string]bool
 	MaxPaths  int
 	MaxInline int
+	// PreferInline: execute callee bodies instead of applying their contracts (used to concretise
+	// counterexamples for replay; never used for proving).
+	PreferInline bool
 }
 
 func (e *Engine) newExec(fn *ssa.Function, fc *FuncContract) *Exec {
@@ -63,6 +66,7 @@ func (e *Engine) newExec(fn *ssa.Function, fc *FuncContract) *Exec {
 		models: e.Models, inlineExt: e.InlineExt, usedContracts: map[string]bool{}, globFacts: map[string][]globFact{},
 		initDone: map[*ssa.Package]bool{}, globConstOK: map[*ssa.Global]bool{}, ghostVars: map[string]func(*specScope) Value{}, specBuiltins: map[string]func(*specScope, *ECall) Value{}}
 	x.c.Prog = e.Prog
+	x.preferInline = e.PreferInline
 	x.topName = contractKey(fn)
 	if fc != nil {
 		x.noPanic = fc.NoPanic
@@ -111,7 +115,7 @@ func (e *Engine) GenVCs(fn *ssa.Function, fc *FuncContract) (res *FuncResult) {
 	} else if fn.Parent() != nil && fn.Parent().Pkg != nil {
 		x.ensureInit(fn.Parent().Pkg)
 	}
-	fr := &Frame{fn: fn, env: map[ssa.Value]Value{}, names: map[string]ssa.Value{}, loopSnap: map[*ssa.BasicBlock]*loopSnap{}, fc: fc}
+	fr := &Frame{fn: fn, env: map[ssa.Value]Value{}, names: map[string]ssa.Value{}, loopSnap: map[*ssa.BasicBlock]*loopSnap{}, loopIter: map[*ssa.BasicBlock]int{}, fc: fc}
 	var args []Value
 	for _, p := range fn.Params {
 		v := x.freshValue(st, "p_"+p.Name(), p.Type())
@@ -129,7 +133,7 @@ func (e *Engine) GenVCs(fn *ssa.Function, fc *FuncContract) (res *FuncResult) {
 	}
 	fr.args = args
 	if fc != nil {
-		x.applyDyn(fr, st, fc)
+		x.applyDyn(fr, st, fc, nil, "")
 		fr.entry = st
 		for _, rq := range fc.Requires {
 			v := x.evalSpec(&specScope{x: x, fr: fr, st: st, old: st}, rq.Expr)
@@ -143,6 +147,17 @@ func (e *Engine) GenVCs(fn *ssa.Function, fc *FuncContract) (res *FuncResult) {
 	}
 	fr.entry = st.clone()
 	res.EntryPC = st.pc
+	if fc != nil && !fc.ModAll {
+		x.frameOn = true
+		x.alloc0 = st.alloc
+		for _, m := range fc.Modifies {
+			if id, ok := m.(*EIdent); ok && strings.HasPrefix(id.Name, "fam_") {
+				unsup("modifies fam_* is only allowed on trusted contracts")
+			}
+			v := x.evalSpec(&specScope{x: x, fr: fr, st: st, old: st}, m)
+			x.modRefs = append(x.modRefs, x.refsOf(v)...)
+		}
+	}
 	outs := x.run(fr, st, fn.Blocks[0], nil, 0)
 	sigRes := fn.Signature.Results()
 	for _, o := range outs {
@@ -266,9 +281,7 @@ func (x *Exec) ensureInit(pkg *ssa.Package) {
 						bad = true
 					}
 				}
-				if bad {
-					continue
-				}
+				_ = bad // facts over the (unconstrained) pre-init heap are still sound: they only pin what init wrote
 				x.heapInfo[key] = heapInfo{loc.Fam, loc.RootT, j}
 				x.globFacts[key] = append(x.globFacts[key], globFact{ref: loc.Ref, val: val})
 				x.globConstOK[g] = true
